@@ -464,6 +464,55 @@ func (g *Gen) RefScenario() []AOp {
 	return ops
 }
 
+// FailScenario: a row referenced from the same column of two rows; a transaction in which the first referrer
+// drops its reference and which then fails; afterwards both drop it in transactions that commit. Nothing of the
+// failed transaction may be left behind - in particular not in the database's index of references.
+func (g *Gen) FailScenario() []AOp {
+	isRoot := g.rootSemantics()
+	type cand struct{ h, col, x string }
+	var cands []cand
+	for _, h := range g.tableNames() {
+		if !isRoot(h) {
+			continue
+		}
+		for _, cn := range g.S.Tables[h].ColNames() {
+			c := g.S.Tables[h].Cols[cn]
+			if KindOf(c) == "set" && c.Key.Ref != "" && c.Min == 0 && c.Max < 0 && c.Mut && (c.Key.RT != "weak" || isRoot(c.Key.Ref)) {
+				cands = append(cands, cand{h, cn, c.Key.Ref})
+			}
+		}
+	}
+	if len(cands) == 0 {
+		return nil
+	}
+	c := cands[g.pick(len(cands))]
+	x := g.fresh()
+	xrow := g.MarkerRow(c.x, fmt.Sprintf("f%d", g.next), g.next)
+	h1, h2 := g.fresh(), g.fresh()
+	r1 := g.MarkerRow(c.h, fmt.Sprintf("g%d", g.next), g.next)
+	g.next++
+	r2 := g.MarkerRow(c.h, fmt.Sprintf("g%d", g.next), g.next)
+	r1[c.col] = []interface{}{x}
+	r2[c.col] = []interface{}{x}
+	setup := []AOp{{Op: "insert", Table: c.x, UUID: x, Row: xrow}, {Op: "insert", Table: c.h, UUID: h1, Row: r1}, {Op: "insert", Table: c.h, UUID: h2, Row: r2}}
+	drop := func(h string) AOp {
+		return AOp{Op: "mutate", Table: c.h, Where: byUUID(h), Mutations: [][]interface{}{{c.col, "delete", []interface{}{x}, "set"}}}
+	}
+	failing := []AOp{drop(h1), {Op: "insert", Table: "NoSuchTable", UUID: g.fresh(), Bad: true, BadKind: "table"}}
+	if g.chance(0.5) {
+		failing = []AOp{drop(h1), drop(h2), {Op: "frobnicate", Table: c.h, Bad: true, BadKind: "op"}}
+	}
+	after := []AOp{drop(h1), drop(h2)}
+	for _, ops := range [][]AOp{setup, failing, after} {
+		for i := range ops {
+			ops[i].Normalize()
+		}
+	}
+	g.queue = append(g.queue, failing, after)
+	g.count("drop-reference-then-fail")
+	return setup
+}
+
 // NameScenario: a named uuid in the less usual positions of one transaction - key of a map in an insert, then a
 // set of keys (or one bare key) in a delete mutation of that map, then a condition on the map.
 func (g *Gen) NameScenario() []AOp {
@@ -527,6 +576,11 @@ func (g *Gen) Txn() []AOp {
 	}
 	if g.chance(0.12 * g.P.Refs) {
 		if ops := g.RefScenario(); ops != nil {
+			return ops
+		}
+	}
+	if g.chance(0.1 * g.P.Fail) {
+		if ops := g.FailScenario(); ops != nil {
 			return ops
 		}
 	}
@@ -699,6 +753,31 @@ func (g *Gen) fillWait(o *AOp, pending map[string][]string) {
 		}
 		if len(o.Columns) > 0 {
 			o.Rows = []map[string]interface{}{row}
+			switch {
+			case g.chance(0.25):
+				// the rows are compared as sets: an expected row given twice is one row
+				dup := map[string]interface{}{}
+				for k, v := range row {
+					dup[k] = v
+				}
+				o.Rows = append(o.Rows, dup)
+				g.count("wait-duplicate-row")
+			case g.chance(0.25):
+				// every row of the table, projected on the columns (rows that coincide there are one element)
+				o.Where = [][]interface{}{}
+				o.Rows = nil
+				for _, x := range us {
+					pr := map[string]interface{}{}
+					for _, cn := range o.Columns {
+						pr[cn] = g.St[t][x][cn]
+					}
+					o.Rows = append(o.Rows, pr)
+				}
+				if g.chance(0.5) {
+					o.Rows = append(o.Rows, o.Rows[0])
+				}
+				g.count("wait-all-rows")
+			}
 			return
 		}
 	}
